@@ -286,7 +286,25 @@ class EdgeFlow:
 def assume(fn, assumptions, ctx=None):
     """EdgeFlow where each (atom, truth) is assumed: the opposite edge of the atom is removed."""
     cut = set()
+    # the same test evaluated at several places (a helper inlined twice, a condition repeated per token side) is assumed alike
+    # everywhere: equal condition terms over the same values have equal outcomes
+    from .atoms import atoms as _atoms, NEG as _NEG
+    extra = []
+    try:
+        all_ats = _atoms(fn)
+    except Exception:
+        all_ats = []
     for at, truth in assumptions:
+        key = at.cond() or ("term", at.term)
+        for other in all_ats:
+            if other is at or other.block == at.block:
+                continue
+            ok_ = other.cond() or ("term", other.term)
+            if ok_ == key:
+                extra.append((other, truth))
+            elif at.cond() and other.cond() and other.cond()[1:] == at.cond()[1:] and _NEG.get(other.cond()[0]) == at.cond()[0]:
+                extra.append((other, not truth))
+    for at, truth in list(assumptions) + extra:
         drop = at.false_targets if truth else at.true_targets
         keep = at.true_targets if truth else at.false_targets
         for d in drop:
